@@ -579,6 +579,8 @@ def run(ctx):
         for flux in space.fluxes(model):
             for rname in recs:
                 cfg.append((mname, flux, rname, ctx.tier))
+    if not th:
+        cfg += [(mname, flux, rname, ctx.tier) for rname in space.X1_REST for mname, flux in (("convection+", None), ("euler1d", "hllc")) if mname in MODELS]
     ctx.pmap("reflection-operator", shard_reflect, cfg)
     first = {}
     for c in cfg:
